@@ -167,6 +167,10 @@ let comp_api : Registry.comp = fun _params ->
     | ["writable"; w] -> env := { !env with Api.e_writable = bool01 w }; "-"
     | ["confuser"; n; pw; perms] ->
        env := { !env with Api.e_conf = !env.Api.e_conf @ [(cs n, { Api.u_password = parse_pw pw; u_perms = parse_perms perms })] }; "-"
+    | ["confedit"; n; pw; perms] ->
+       (* the administrator edits config.json by hand; the file's stamp changes, the server re-reads it *)
+       let u = { Api.u_password = parse_pw pw; u_perms = parse_perms perms } in
+       env := { !env with Api.e_conf = List.map (fun (k, v) -> if k = cs n then (k, u) else (k, v)) !env.Api.e_conf }; "-"
     | ["group"; n; c; a; r; u] ->
        let d = { Api.d_pub = { Api.p_comment = cs (dash c); p_auto_subgroups = bool01 a;
                                p_allow_recording = bool01 r; p_unrestricted_tokens = bool01 u };
